@@ -346,7 +346,7 @@ func probe(host, port string, timeout time.Duration) (*discoveryInfo, error) {
 	defer conn.Close()
 
 	driver.lc.Info("Connection dialed", "host", host, "port", port)
-	c := llrp.NewClient(llrp.WithLogger(&edgexLLRPClientLogger{
+	c := llrp.NewClient(llrp.WithTimeout(timeout), llrp.WithLogger(&edgexLLRPClientLogger{
 		devName: "probe-" + host,
 		lc:      driver.lc,
 	}))
